@@ -37,6 +37,9 @@ pub enum Kind {
     ChurnTick,
     /// five println calls (forced draws, outside the law) followed by an ordinary tick
     PrintlnBurstTick,
+    /// 25 times: set_style(the same style again), then tick() - restyling does not draw and does not
+    /// force the draw of the tick that follows
+    RestyleBurst,
 }
 
 #[derive(Clone, Copy, Debug, PartialEq)]
@@ -165,6 +168,8 @@ impl C05 {
                 (Some(mp), a, Some(b))
             }
         };
+        let a2 = a.clone();
+        let mut step = 0u64;
         let (mut pa, mut pb_, mut msg) = (0u64, 0u64, 0u64);
         let mut calls = Vec::new();
         let mut inc_reach: Vec<u64> = Vec::new();
@@ -194,7 +199,7 @@ impl C05 {
         for ev in std::iter::once(&root).chain(hist.iter()) {
             clock::advance_ns(ev.gap_ns);
             let reps = match ev.kind {
-                Kind::Burst => 25,
+                Kind::Burst | Kind::RestyleBurst => 25,
                 Kind::IncBurst | Kind::DecBurst | Kind::ResetIncBurst => 15,
                 _ => 1,
             };
@@ -262,8 +267,17 @@ impl C05 {
                 let before = nframes(&spy);
                 let t = clock::now_ns();
                 let reach0 = reach.times.lock().unwrap().len();
+                if ev.kind == Kind::RestyleBurst {
+                    if let Err(p) = catch(|| a.set_style(style(Some(reach.clone())))) {
+                        return Err(p);
+                    }
+                }
+                // (the position bucket belongs to the bar, not to the handle: odd steps go through a clone)
+                let via_clone = self.name == "position-bucket-clones" && step % 2 == 1;
+                step += 1;
+                let a = if via_clone { &a2 } else { &a };
                 let r = catch(|| match ev.kind {
-                    Kind::Tick | Kind::Burst | Kind::ChurnTick | Kind::ResizeTick | Kind::PrintlnBurstTick => a.tick(),
+                    Kind::Tick | Kind::RestyleBurst | Kind::Burst | Kind::ChurnTick | Kind::ResizeTick | Kind::PrintlnBurstTick => a.tick(),
                     Kind::FinishReset => a.reset(),
                     Kind::Inc | Kind::IncBurst | Kind::ResetIncBurst => a.inc(1),
                     Kind::Dec | Kind::DecBurst => a.dec(1),
@@ -471,6 +485,11 @@ fn configs(tier: Tier) -> Vec<(C05, usize)> {
                 v.push((C05 { r, target: Target::Multi, kinds: vec![Kind::Tick, Kind::Burst, Kind::TickB, Kind::IncB, Kind::ChurnTick, Kind::ResizeTick, Kind::FinishReset], gaps: vec![0, 1, interval_ns(r) - 1, interval_ns(r), 20 * interval_ns(r), 21 * interval_ns(r) + 1], name: "multi", from_r: None }, 3));
                 v.push((C05 { r, target: Target::Single, kinds: vec![Kind::Tick, Kind::Inc, Kind::Burst, Kind::Msg, Kind::SetPos, Kind::SetPosSame, Kind::ResizeTick, Kind::FinishReset], gaps: vec![0, 1_000_000, interval_ns(r) - 1, interval_ns(r) + 1_000_000, 21 * interval_ns(r) + 1], name: "mixed", from_r: None }, 3));
             }
+            // the same bar stepped through two handles; restyling between ticks
+            v.push((C05 { r: 20, target: Target::Single, kinds: vec![Kind::Inc, Kind::IncBurst, Kind::Dec, Kind::DecBurst], gaps: pos_gaps(20), name: "position-bucket-clones", from_r: None }, 3));
+            for (r, target) in [(2u8, Target::Single), (20, Target::Multi)] {
+                v.push((C05 { r, target, kinds: vec![Kind::Tick, Kind::Burst, Kind::RestyleBurst], gaps: vec![0, interval_ns(r), 5 * interval_ns(r) + 1], name: "restyle", from_r: None }, 3));
+            }
             // forced draws (println) between ordinary requests neither use up nor refill the budget of the latter
             for (r, target) in [(2u8, Target::Single), (20, Target::Multi)] {
                 v.push((C05 { r, target, kinds: vec![Kind::Tick, Kind::Burst, Kind::PrintlnBurstTick], gaps: vec![0, 2 * interval_ns(r), 5 * interval_ns(r) + 1, 21 * interval_ns(r) + 1], name: "forced", from_r: None }, 3));
@@ -490,8 +509,14 @@ fn configs(tier: Tier) -> Vec<(C05, usize)> {
                 v.push((C05 { r, target: Target::Multi, kinds: vec![Kind::Tick, Kind::Burst, Kind::TickB, Kind::IncB, Kind::ChurnTick], gaps: vec![0, 1, interval_ns(r) - 1, interval_ns(r), 20 * interval_ns(r), 21 * interval_ns(r) + 1], name: "multi", from_r: None }, 4));
                 v.push((C05 { r, target: Target::Single, kinds: vec![Kind::Tick, Kind::Inc, Kind::Burst, Kind::Msg, Kind::SetPos, Kind::SetPosSame, Kind::ResizeTick, Kind::FinishReset], gaps: vec![0, 1_000_000, interval_ns(r) - 1, interval_ns(r) + 1_000_000, 21 * interval_ns(r) + 1], name: "mixed", from_r: None }, 4));
             }
-            for (r, target) in [(2u8, Target::Single), (20, Target::Multi), (255, Target::Single), (1, Target::Multi)] {
-                v.push((C05 { r, target, kinds: vec![Kind::Tick, Kind::Burst, Kind::PrintlnBurstTick, Kind::Msg], gaps: vec![0, 2 * interval_ns(r), 5 * interval_ns(r) + 1, 21 * interval_ns(r) + 1], name: "forced", from_r: None }, 4));
+            for (r, d) in [(20u8, 4usize), (255, 3)] {
+                v.push((C05 { r, target: Target::Single, kinds: vec![Kind::Inc, Kind::IncBurst, Kind::Dec, Kind::DecBurst, Kind::ResetIncBurst], gaps: pos_gaps(r), name: "position-bucket-clones", from_r: None }, d));
+            }
+            for (r, target, d) in [(2u8, Target::Single, 4usize), (20, Target::Multi, 3), (255, Target::Multi, 3)] {
+                v.push((C05 { r, target, kinds: vec![Kind::Tick, Kind::Burst, Kind::RestyleBurst, Kind::Msg], gaps: vec![0, interval_ns(r), 5 * interval_ns(r) + 1], name: "restyle", from_r: None }, d));
+            }
+            for (r, target, d) in [(2u8, Target::Single, 4usize), (20, Target::Multi, 3), (255, Target::Single, 3), (1, Target::Multi, 3)] {
+                v.push((C05 { r, target, kinds: vec![Kind::Tick, Kind::Burst, Kind::PrintlnBurstTick, Kind::Msg], gaps: vec![0, 2 * interval_ns(r), 5 * interval_ns(r) + 1, 21 * interval_ns(r) + 1], name: "forced", from_r: None }, d));
             }
             for (f, r) in [(100u8, 2u8), (2, 100), (255, 1), (1, 255), (20, 21)] {
                 v.push((C05 { r, target: Target::Multi, kinds: vec![Kind::Tick, Kind::Burst, Kind::TickB, Kind::IncB, Kind::ChurnTick], gaps: vec![0, 1, interval_ns(r) - 1, interval_ns(r), 20 * interval_ns(r), 21 * interval_ns(r) + 1], name: "multi", from_r: Some(f) }, if f == 100 || r == 100 { 4 } else { 3 }));
